@@ -9,8 +9,8 @@ def run(suite, line):
     d = tempfile.mkdtemp(prefix="shr", dir=os.path.join(V, "build", "run"))
     ops = os.path.join(d, suite + ".ops")
     open(ops, "w").write(line + "\n")
-    subprocess.run([os.path.join(V, "build", "corr"), "exec", suite, ops, d], stdout=subprocess.DEVNULL, stderr=subprocess.DEVNULL)
-    m = subprocess.run([os.path.join(V, "lean/.lake/build/bin/oracle")], stdin=open(ops), stdout=subprocess.PIPE).stdout.decode().splitlines()
+    subprocess.run([os.environ.get("SHRINK_CORR", os.path.join(V, "build", "corr")), "exec", suite, ops, d], stdout=subprocess.DEVNULL, stderr=subprocess.DEVNULL)
+    m = subprocess.run([os.environ.get("SHRINK_ORACLE", os.path.join(V, "lean/.lake/build/bin/oracle"))], stdin=open(ops), stdout=subprocess.PIPE).stdout.decode().splitlines()
     i = open(os.path.join(d, suite + ".impl")).read().splitlines()
     subprocess.run(["rm", "-rf", d])
     return e2ecmp.compare(i[0], m[0]) if i and m else []
